@@ -493,4 +493,47 @@ theorem cellExec_represents (t : Ty) (c : Cell) (v : Value) (h : cellExec t c = 
             · cases h; simp [cellRepresents, he]
             · cases h
 
+theorem rowExec_spec : ∀ (ts : List Ty) (row : List Cell) (vs : List Value), rowExec cellExec ts row = some vs →
+    vs.length = min ts.length row.length ∧ ∀ (i : Nat) (v : Value) (c : Cell), vs[i]? = some v → row[i]? = some c → cellRepresents v c = true
+  | [], row, vs, h => by cases row <;> simp only [rowExec, Option.some.injEq] at h <;> subst h <;> simp
+  | t :: ts, [], vs, h => by simp only [rowExec, Option.some.injEq] at h; subst h; simp
+  | t :: ts, c :: cs, vs, h => by
+    simp only [rowExec] at h
+    cases hc : cellExec t c with
+    | none => simp [hc] at h
+    | some v =>
+      cases hrs : rowExec cellExec ts cs with
+      | none => simp [hc, hrs] at h
+      | some vs' =>
+        simp only [hc, hrs, Option.some.injEq] at h
+        subst h
+        obtain ⟨hl, hi⟩ := rowExec_spec ts cs vs' hrs
+        refine ⟨by simp [hl], ?_⟩
+        intro i v' c' hv hc'
+        cases i with
+        | zero => simp at hv hc'; subst hv; subst hc'; exact cellExec_represents t c v hc
+        | succ i => exact hi i v' c' (by simpa using hv) (by simpa using hc')
+
+theorem rowsExec_spec (ts : List Ty) : ∀ (rows : List (List Cell)) (recs : List (List Value)),
+    rowsExec cellExec ts rows = some recs →
+    recs.length = rows.length ∧ ∀ (i : Nat) (rec : List Value), recs[i]? = some rec →
+      ∃ row, rows[i]? = some row ∧ rowExec cellExec ts row = some rec
+  | [], recs, h => by simp only [rowsExec, Option.some.injEq] at h; subst h; simp
+  | r :: rows, recs, h => by
+    simp only [rowsExec] at h
+    cases h1 : rowExec cellExec ts r with
+    | none => simp [h1] at h
+    | some v =>
+      cases h2 : rowsExec cellExec ts rows with
+      | none => simp [h1, h2] at h
+      | some vs =>
+        simp only [h1, h2, Option.some.injEq] at h
+        subst h
+        obtain ⟨hl, hi⟩ := rowsExec_spec ts rows vs h2
+        refine ⟨by simp [hl], ?_⟩
+        intro i rec hrec
+        cases i with
+        | zero => simp at hrec; subst hrec; exact ⟨r, by simp, h1⟩
+        | succ i => simpa using hi i rec (by simpa using hrec)
+
 end Octo.Files
